@@ -162,7 +162,9 @@ func TestC20_ListMapCall(t *testing.T) {
 				n = g.Expr(rapid.SampledFrom([]cty.Type{cty.String, cty.Number, cty.Bool}).Draw(t, "callty"))
 			}
 			dump := ast.Dump(n)
-			src, _ := render.Expression(n, rchooser{t}, render.Opts{Wild: 1})
+			// (Exact: the subject of static analysis is written without redundant parentheses
+			// around it, which static analysis does not look through)
+			src, _ := render.Expression(ast.Exact{X: n}, rchooser{t}, render.Opts{Wild: 1})
 			c.Set("source", src)
 			c.Set("scope", scopeDump(sc))
 			expr, diags := parseExprSrc(src)
@@ -170,119 +172,28 @@ func TestC20_ListMapCall(t *testing.T) {
 				c.Failf("parse-error", "%s", diagStr(diags))
 			}
 			ctx := evalCtx(sc)
-			var whole cty.Value
-			var wdiags hcl.Diagnostics
-			c.Guard("Value", func() { whole, wdiags = expr.Value(ctx) })
-			nontrivial := false
-			if list, d := hcl.ExprList(expr); !d.HasErrors() {
-				c.Class("static_list")
-				if !wdiags.HasErrors() {
-					whole, _ := whole.Unmark()
-					if !whole.Type().IsTupleType() || whole.LengthInt() != len(list) {
-						c.Failf("list-length", "ExprList has %d elements, the value is %#v", len(list), whole)
-					}
-					i := 0
-					for it := whole.ElementIterator(); it.Next(); i++ {
-						_, ev := it.Element()
-						pv, pd := list[i].Value(ctx)
-						if pd.HasErrors() || !pv.RawEquals(ev) {
-							c.Failf("list-element", "ExprList element %d evaluates to %#v (%s), the whole has %#v", i, pv, diagStr(pd), ev)
-						}
-					}
-					nontrivial = len(list) >= 2
-				}
+			nontrivial, unspec := checkStaticParts(c, "native", n, expr, ctx)
+			if unspec {
+				c.Done(false, "")
+				return
 			}
-			if pairs, d := hcl.ExprMap(expr); !d.HasErrors() {
-				c.Class("static_map")
-				if !wdiags.HasErrors() && whole.IsKnown() {
-					whole, _ := whole.Unmark()
-					seenKeys := map[string]bool{}
-					dupKeys := false
-					for _, p := range pairs {
-						if kv, kd := p.Key.Value(ctx); !kd.HasErrors() {
-							kv, _ = kv.Unmark()
-							if ks, err := convertTo(kv, cty.String); err == nil && !ks.IsNull() && ks.IsKnown() {
-								if seenKeys[ks.AsString()] {
-									dupKeys = true
-								}
-								seenKeys[ks.AsString()] = true
-							}
-						}
-					}
-					if dupKeys {
-						// U1: duplicate keys in an object constructor are not specified
-						c.Unspecified("U1-duplicate-object-constructor-key")
-						c.Done(false, "")
-						return
-					}
-					if !whole.Type().IsObjectType() || whole.LengthInt() != len(pairs) {
-						c.Failf("map-length", "ExprMap has %d pairs, the value is %#v", len(pairs), whole)
-					}
-					for i, p := range pairs {
-						kv, kd := p.Key.Value(ctx)
-						vv, vd := p.Value.Value(ctx)
-						if kd.HasErrors() || vd.HasErrors() {
-							c.Failf("map-part-error", "ExprMap pair %d does not evaluate although the whole does: %s %s", i, diagStr(kd), diagStr(vd))
-						}
-						kv, _ = kv.Unmark()
-						ks, err := convertTo(kv, cty.String)
-						if err != nil || ks.IsNull() || !whole.Type().HasAttribute(ks.AsString()) {
-							c.Failf("map-key", "ExprMap pair %d key evaluates to %#v which is not an attribute of %#v", i, kv, whole)
-						}
-						if !whole.GetAttr(ks.AsString()).RawEquals(vv) {
-							c.Failf("map-value", "ExprMap pair %d (%q) evaluates to %#v, the whole has %#v", i, ks.AsString(), vv, whole.GetAttr(ks.AsString()))
-						}
-					}
-					nontrivial = len(pairs) >= 2
+			// the same construct in JSON syntax: arrays and objects stay JSON arrays and objects,
+			// everything else is a "${...}" string
+			// (a call has no JSON form whose value is the call's value: a JSON string is a template)
+			js, static := render.ExprJSON(n)
+			if static {
+				c.Set("json", js)
+				c.Class("json_form")
+				jexpr, jd := hcljson.ParseExpression([]byte(js), "t.json")
+				if jd.HasErrors() {
+					c.Failf("parse-error", "json: %s", diagStr(jd))
 				}
-			}
-			if call, d := hcl.ExprCall(expr); !d.HasErrors() {
-				c.Class("static_call")
-				ce, isCall := n.(ast.Call)
-				if isCall && call.Name != ce.Name {
-					c.Failf("call-name", "ExprCall name %q, written %q", call.Name, ce.Name)
+				nt2, unspec2 := checkStaticParts(c, "json", n, jexpr, ctx)
+				if unspec2 {
+					c.Done(false, "")
+					return
 				}
-				if isCall && len(call.Arguments) != len(ce.Args) {
-					c.Failf("call-args", "ExprCall has %d arguments, written %d", len(call.Arguments), len(ce.Args))
-				}
-				if isCall && !ce.Expand && !wdiags.HasErrors() {
-					// re-assemble the call from the static parts and compare
-					fn, ok := ctyFuncs[call.Name]
-					if !ok {
-						c.Failf("call-unknown-function", "whole evaluates but function %q does not exist", call.Name)
-					}
-					args := make([]cty.Value, len(call.Arguments))
-					okArgs := true
-					for i, a := range call.Arguments {
-						av, ad := a.Value(ctx)
-						if ad.HasErrors() {
-							okArgs = false
-						}
-						var pty cty.Type
-						params := fn.Params()
-						if i < len(params) {
-							pty = params[i].Type
-						} else if vp := fn.VarParam(); vp != nil {
-							pty = vp.Type
-						} else {
-							okArgs = false
-							break
-						}
-						cv, err := convertTo(av, pty)
-						if err != nil {
-							okArgs = false
-						}
-						args[i] = cv
-					}
-					if !okArgs {
-						c.Failf("call-part-error", "an argument of the static call does not evaluate although the whole does")
-					}
-					rv, err := fn.Call(args)
-					if err != nil || !rv.RawEquals(whole) {
-						c.Failf("call-value", "calling %s with the static arguments gives %#v (%v), the whole evaluates to %#v", call.Name, rv, err, whole)
-					}
-					nontrivial = len(args) >= 2
-				}
+				nontrivial = nontrivial || nt2
 			}
 			c.Done(nontrivial, dump+"|"+scopeTypes(sc))
 		})
@@ -378,4 +289,147 @@ func TestC20_TypeExpr(t *testing.T) {
 			}
 			c.Done(typeDepth(ty) >= 2, fmt.Sprintf("%#v", ty))
 		})
+}
+
+// checkStaticParts compares the static list / map / call views of expr with its value.
+// It returns whether the case is non-trivial and whether it fell into an unspecified region.
+func checkStaticParts(c *hx.Case, form string, n ast.Node, expr hcl.Expression, ctx *hcl.EvalContext) (bool, bool) {
+	// a constructor / call must be statically analysable as such (static analysis does not
+	// look through parentheses; JSON has none, so there the parentheses are dropped)
+	base := n
+	for form == "json" {
+		if p, ok := base.(ast.Paren); ok {
+			base = p.X
+			continue
+		}
+		break
+	}
+	switch base.(type) {
+	case ast.Tuple:
+		if _, d := hcl.ExprList(expr); d.HasErrors() {
+			c.Failf("static-view-refused", "%s: the expression is a tuple constructor but hcl.ExprList refuses it: %s", form, diagStr(d))
+		}
+	case ast.Object:
+		if _, d := hcl.ExprMap(expr); d.HasErrors() {
+			c.Failf("static-view-refused", "%s: the expression is an object constructor but hcl.ExprMap refuses it: %s", form, diagStr(d))
+		}
+	case ast.Call:
+		if _, d := hcl.ExprCall(expr); d.HasErrors() {
+			c.Failf("static-view-refused", "%s: the expression is a function call but hcl.ExprCall refuses it: %s", form, diagStr(d))
+		}
+	}
+	var whole cty.Value
+	var wdiags hcl.Diagnostics
+	c.Guard("Value", func() { whole, wdiags = expr.Value(ctx) })
+	nontrivial := false
+	if list, d := hcl.ExprList(expr); !d.HasErrors() {
+		c.Class("static_list")
+		if !wdiags.HasErrors() {
+			whole, _ := whole.Unmark()
+			if !whole.Type().IsTupleType() || whole.LengthInt() != len(list) {
+				c.Failf("list-length", "ExprList has %d elements, the value is %#v", len(list), whole)
+			}
+			i := 0
+			for it := whole.ElementIterator(); it.Next(); i++ {
+				_, ev := it.Element()
+				pv, pd := list[i].Value(ctx)
+				if pd.HasErrors() || !pv.RawEquals(ev) {
+					c.Failf("list-element", "ExprList element %d evaluates to %#v (%s), the whole has %#v", i, pv, diagStr(pd), ev)
+				}
+			}
+			nontrivial = len(list) >= 2
+		}
+	}
+	if pairs, d := hcl.ExprMap(expr); !d.HasErrors() {
+		c.Class("static_map")
+		if !wdiags.HasErrors() && whole.IsKnown() {
+			whole, _ := whole.Unmark()
+			seenKeys := map[string]bool{}
+			dupKeys := false
+			for _, p := range pairs {
+				if kv, kd := p.Key.Value(ctx); !kd.HasErrors() {
+					kv, _ = kv.Unmark()
+					if ks, err := convertTo(kv, cty.String); err == nil && !ks.IsNull() && ks.IsKnown() {
+						if seenKeys[ks.AsString()] {
+							dupKeys = true
+						}
+						seenKeys[ks.AsString()] = true
+					}
+				}
+			}
+			if dupKeys {
+				// U1: duplicate keys in an object constructor are not specified
+				c.Unspecified("U1-duplicate-object-constructor-key")
+				return false, true
+			}
+			if !whole.Type().IsObjectType() || whole.LengthInt() != len(pairs) {
+				c.Failf("map-length", "ExprMap has %d pairs, the value is %#v", len(pairs), whole)
+			}
+			for i, p := range pairs {
+				kv, kd := p.Key.Value(ctx)
+				vv, vd := p.Value.Value(ctx)
+				if kd.HasErrors() || vd.HasErrors() {
+					c.Failf("map-part-error", "ExprMap pair %d does not evaluate although the whole does: %s %s", i, diagStr(kd), diagStr(vd))
+				}
+				kv, _ = kv.Unmark()
+				ks, err := convertTo(kv, cty.String)
+				if err != nil || ks.IsNull() || !whole.Type().HasAttribute(ks.AsString()) {
+					c.Failf("map-key", "ExprMap pair %d key evaluates to %#v which is not an attribute of %#v", i, kv, whole)
+				}
+				if !whole.GetAttr(ks.AsString()).RawEquals(vv) {
+					c.Failf("map-value", "ExprMap pair %d (%q) evaluates to %#v, the whole has %#v", i, ks.AsString(), vv, whole.GetAttr(ks.AsString()))
+				}
+			}
+			nontrivial = len(pairs) >= 2
+		}
+	}
+	if call, d := hcl.ExprCall(expr); !d.HasErrors() {
+		c.Class("static_call")
+		ce, isCall := n.(ast.Call)
+		if isCall && call.Name != ce.Name {
+			c.Failf("call-name", "ExprCall name %q, written %q", call.Name, ce.Name)
+		}
+		if isCall && len(call.Arguments) != len(ce.Args) {
+			c.Failf("call-args", "ExprCall has %d arguments, written %d", len(call.Arguments), len(ce.Args))
+		}
+		if isCall && !ce.Expand && !wdiags.HasErrors() {
+			// re-assemble the call from the static parts and compare
+			fn, ok := ctyFuncs[call.Name]
+			if !ok {
+				c.Failf("call-unknown-function", "whole evaluates but function %q does not exist", call.Name)
+			}
+			args := make([]cty.Value, len(call.Arguments))
+			okArgs := true
+			for i, a := range call.Arguments {
+				av, ad := a.Value(ctx)
+				if ad.HasErrors() {
+					okArgs = false
+				}
+				var pty cty.Type
+				params := fn.Params()
+				if i < len(params) {
+					pty = params[i].Type
+				} else if vp := fn.VarParam(); vp != nil {
+					pty = vp.Type
+				} else {
+					okArgs = false
+					break
+				}
+				cv, err := convertTo(av, pty)
+				if err != nil {
+					okArgs = false
+				}
+				args[i] = cv
+			}
+			if !okArgs {
+				c.Failf("call-part-error", "an argument of the static call does not evaluate although the whole does")
+			}
+			rv, err := fn.Call(args)
+			if err != nil || !rv.RawEquals(whole) {
+				c.Failf("call-value", "calling %s with the static arguments gives %#v (%v), the whole evaluates to %#v", call.Name, rv, err, whole)
+			}
+			nontrivial = len(args) >= 2
+		}
+	}
+	return nontrivial, false
 }
